@@ -482,8 +482,8 @@ def c09_zst(ctx, seqrun, stats, divs):
     ctx.violation('zero-sized item type with a destructor (new_zeroed + *_init stores + pop_move): ' + what.split(' : ')[-1][:300],
                   f'## replay: .build/cargo/debug/zstprobe {ctx.seed} {n}\n## history: {what}\n', no_input=(mm is None))
 
-CHECKS['C08'] = LedgerCheck('C08', is_ledger, LEDGER_TEXT + ' The cell primitives themselves: cellprobe (public API of UnsafeSyncCell on single cells, item sizes 1..24 bytes).', extra=lambda ctx, seqrun, stats, divs: run_cellprobe(ctx, stats))
-CHECKS['C09'] = LedgerCheck('C09', is_ledger, LEDGER_TEXT + ' Zero-sized item types (no bytes: outside the Model): exact drop ledger on rule-following histories (zstprobe). The cell primitives themselves: cellprobe.', extra=c09_zst)
+CHECKS['C08'] = LedgerCheck('C08', is_ledger, LEDGER_TEXT + ' The cell primitives themselves: C-tie (unsafe_sync_cell.rs translated on every run and proved for every byte representation without all-zero live values, Props/CTie.v) and cellprobe (public API of UnsafeSyncCell on single cells, item sizes 1..24 bytes).', extra=lambda ctx, seqrun, stats, divs: run_cellprobe(ctx, stats))
+CHECKS['C09'] = LedgerCheck('C09', is_ledger, LEDGER_TEXT + ' Zero-sized item types (no bytes: outside the Model): exact drop ledger on rule-following histories (zstprobe). The cell primitives themselves: C-tie (Props/CTie.v) and cellprobe.', extra=c09_zst)
 for pid in ('C08', 'C09'):
     # D-tie: the ledger events of every store / take / clone in the translated source = the Model's; C-tie: the cell primitives they are built from
     CHECKS[pid].propfiles = [f'Props/{pid}.v', 'Props/DTie.v', 'Props/CTie.v']
@@ -566,7 +566,9 @@ class AsyncCheck(SeqCheck):
         return {'wake_instances': {k: len(v) for k, v in inst.items()}, 'pending_polls_observed': pending_polls}
 
 ASYNC_TEXT = ('Theorems (Coq): MRBFuture::poll modelled as two synchronous attempts with waker registration in between; poll_ready / poll_pending: the poll resolves with exactly the synchronous '
-              'result, otherwise Pending with no ledger event, the Spec state untouched and the polling task registered; tie: async histories on the real wrappers.')
+              'result, otherwise Pending with no ledger event, the Spec state untouched and the polling task registered; a poll during whose waker registration another stage acts (poll_inj) is '
+              'the source shape with the step at its registration event, refines the Spec and sees what that step made possible (no lost wake-up); tie: async histories on the real wrappers, '
+              '30 % of the polls with a step of another stage performed inside the polling task\'s Waker::clone.')
 CHECKS['C14'] = AsyncCheck('C14', is_c14, ASYNC_TEXT)
 CHECKS['C15'] = AsyncCheck('C15', is_c15, ASYNC_TEXT + ' (b) "is woken" is refuted (C15_refuted, C15_never_woken): known finding F8.', wake_oracle=True)
 
